@@ -194,6 +194,24 @@ def tie(ctx):
                 continue
             n = r.choice([3, 3, 4, 5])
             groups.append((gd, [(ma, r.choice(list(gene.alleles[ma].minors)), []) for ma in (r.choice(cands) for _ in range(n))], None))
+    # directed: one or two called copies around the whole-gene-deletion allele - the deletion allele called alone (the
+    # missing haplotype gets a placeholder, the called copy stays), an allele that shares the deletion allele's number
+    # called alone, the deletion allele next to another allele
+    for gd in pool:
+        gene, _ = instances.load_gene(gd)
+        dele = gene.deletion_allele()
+        if not dele:
+            continue
+        one = lambda ma: (ma, r.choice(list(gene.alleles[ma].minors)), [])
+        groups.append((gd, [one(dele)], None))
+        groups.append((gd, [one(dele), one(dele)], None))
+        others = [m for m in gene.alleles if m != dele]
+        if others:
+            groups.append((gd, [one(dele), one(r.choice(others))], None))
+            groups.append((gd, [one(r.choice(others))], None))
+        for ma in [m for m in others if real_key(m) == real_key(dele)][:2]:
+            groups.append((gd, [one(ma)], None))
+            groups.append((gd, [one(ma), one(dele)], None))
     # directed: partial (fusion-derived) alleles whose background sub-allele has a dotted identifier (`13#4.021`): the name
     # shown is the part before `#`
     for gd in pool:
